@@ -349,3 +349,49 @@ def _(user_cfg):
     ensures("images_checked", ncalls("check_images") == 1,
             call_arg_mentions("check_images", 0, 0, "update_conf({'input': {'left': {'nodata': -9999, 'mask': None, 'classif': None, 'segm': None}, 'right': {'nodata': -9999, 'mask': None, 'classif': None, 'segm': None, 'disp': None}}}, user_cfg)['input']"))
     ensures("returns_the_merged_configuration", result_text() == "update_conf({'input': {'left': {'nodata': -9999, 'mask': None, 'classif': None, 'segm': None}, 'right': {'nodata': -9999, 'mask': None, 'classif': None, 'segm': None, 'disp': None}}}, user_cfg)")
+
+
+# C01 ("every history of check / run calls on one machine"; "checking mirrors running"): PandoraMachine.check_conf -- the images
+# are recorded, a first-round check starts from an EMPTY checked pipeline (a right/left second round completes the same one), the
+# checking transitions are installed before any step is triggered and removed afterwards, every step of the user's pipeline is
+# triggered in the pipeline's own order with the pipeline section and ITS OWN key (a suffixed key 'filter.1' fires the trigger
+# of its head 'check_filter'), the machine comes back to 'begin', and when a right disparity map is requested the same check is run
+# once more with the two images exchanged, after which the records point at (left, right) again.
+# The loop over the steps is summarised by ONE generic iteration (its events stand for every iteration).
+@contract("pandora.state_machine.PandoraMachine.check_conf", props=["C01", "C05"])
+def _(self, cfg, img_left, img_right, right_left_img_check):
+    types(cfg="opaque", img_left="opaque", img_right="opaque", right_left_img_check="opaque")
+    option(glue=True)
+    ensures("images_recorded", event_texts()[0] == "self.left_img = img_left", event_texts()[1] == "self.right_img = img_right")
+    ensures("first_round_starts_from_an_empty_pipeline",
+            stored_at("self.pipeline_cfg") == (branch("not (right_left_img_check)") is True),
+            implies(stored_at("self.pipeline_cfg"), last_store("self.pipeline_cfg") == "{'pipeline': {}}"
+                    and event_before("self.pipeline_cfg = ", "self.add_transitions(")
+                    and len([t for t in event_texts() if "self.pipeline_cfg = " in t]) == 1))
+    ensures("checking_transitions_around_the_steps", ncalls("add_transitions") == 1, ncalls("remove_transitions") == 1,
+            call_arg_mentions("add_transitions", 0, 0, "self._transitions_check"),
+            call_arg_mentions("remove_transitions", 0, 0, "self._transitions_check"),
+            event_before("self.add_transitions(", "self.trigger("), event_before("self.trigger(", "self.remove_transitions("))
+    ensures("every_step_triggered_in_pipeline_order_with_its_own_key",
+            in_loop("self.trigger(", "list(cfg['pipeline'])"), ncalls("trigger") == 1,
+            call_arg_mentions("trigger", 0, 1, "cfg['pipeline']"),
+            call_arg_mentions("trigger", 0, 2, "<each input_step of list(cfg['pipeline'])>"),
+            not call_arg_mentions("trigger", 0, 2, "split"), not call_arg_mentions("trigger", 0, 2, "check_"),
+            implies(branch("split('.')) != 1") is True,
+                    call_arg_mentions("trigger", 0, 0, "('check_' + <each input_step of list(cfg['pipeline'])>).split('.')[0]")),
+            implies(branch("split('.')) != 1") is False,
+                    call_arg_mentions("trigger", 0, 0, "('check_' + <each input_step of list(cfg['pipeline'])>)")
+                    and not call_arg_mentions("trigger", 0, 0, "split")))
+    ensures("back_to_begin", ncalls("set_state") == 1, call_arg_mentions("set_state", 0, 0, "'begin'"),
+            event_before("self.remove_transitions(", "self.set_state("))
+    ensures("second_round_with_the_images_exchanged",
+            (ncalls("check_conf") == 1) == (branch("(self.right_disp_map) and (not (right_left_img_check))") is True),
+            ncalls("check_conf") <= 1,
+            implies(ncalls("check_conf") == 1,
+                    call_arg_mentions("check_conf", 0, 0, "cfg") and call_arg_mentions("check_conf", 0, 1, "img_right")
+                    and call_arg_mentions("check_conf", 0, 2, "img_left") and call_arg_mentions("check_conf", 0, 3, "True")
+                    and event_before("self.set_state(", "self.check_conf(")))
+    ensures("records_point_at_left_right_at_the_end", last_store("self.left_img") == "img_left", last_store("self.right_img") == "img_right",
+            implies(ncalls("check_conf") == 1, event_before("self.check_conf(", "self.left_img = img_left") is False
+                    and len([t for t in event_texts() if t == "self.left_img = img_left"]) == 2
+                    and event_texts()[-1] == "self.right_img = img_right" and event_texts()[-2] == "self.left_img = img_left"))
